@@ -3,6 +3,7 @@ import RichchkModel.Model.Dump
 import RichchkModel.Spec.Layouts
 import RichchkModel.Spec.TrigArgs
 import RichchkModel.Spec.Flags
+import RichchkModel.Spec.Consts
 open Richchk
 
 def jsonStr (s : String) : String := "\"" ++ s ++ "\""
@@ -29,7 +30,14 @@ def jsonFlags : String :=
   "[" ++ ",".intercalate (Spec.flagBits.map fun p => "{\"name\":" ++ jsonStr p.1 ++ ",\"bits\":" ++ jsonStrList p.2 ++
     ",\"inverted\":" ++ (if Spec.invertedFlags.contains p.1 then "true" else "false") ++ "}") ++ "]"
 
+def jsonCfg (c : AllocCfg) : String :=
+  "{\"lo\":" ++ toString c.lo ++ ",\"hi\":" ++ toString c.hi ++ ",\"reserved\":" ++
+    (match c.reserved with | some r => toString r | none => "null") ++ ",\"raise\":" ++
+    (if c.raiseWhenFull then "true" else "false") ++ "}"
+
 def main : IO Unit := IO.println ("{\"layouts\":" ++ jsonTable Spec.specTable ++
   ",\"actions\":" ++ jsonSpecRows Spec.actions ++ ",\"conditions\":" ++ jsonSpecRows Spec.conditions ++
   ",\"actionFields\":" ++ jsonStrList Spec.actionFields ++ ",\"conditionFields\":" ++ jsonStrList Spec.conditionFields ++
-  ",\"flags\":" ++ jsonFlags ++ "}")
+  ",\"flags\":" ++ jsonFlags ++
+  ",\"slots\":{\"mrgn\":" ++ jsonCfg Spec.locationSlots ++ ",\"uprp\":" ++ jsonCfg Spec.cuwpSlots ++
+  ",\"wav\":" ++ jsonCfg Spec.wavSlots ++ ",\"swnm\":" ++ jsonCfg Spec.switchSlots ++ "}}")
